@@ -500,6 +500,30 @@ Definition write_excl_ok (prog : list sop) (obs : list sobs) (results : list are
   | _, _ => true
   end.
 
+(** known finding KF-C10-1 seen without the race detector: a paused
+    Leaf.Update sits inside its critical section (it owns the leaf's write
+    lock) from before a Delete was started until after that Delete returned
+    the very leaf among its removed paths -- Delete read the leaf's content
+    without the node lock. *)
+Definition kf_handle_delete (prog : list sop) (obs : list sobs) (results : list ares) (d : nat) : bool :=
+  match nth_error prog d, nth_error results d with
+  | Some (SDelete _), Some (RsPaths removed) =>
+      match first_idx (fun x => Nat.eqb (so_tid x) d) obs 0,
+            first_idx (fun x => Nat.eqb (nth d (so_status x) 0%nat) 3) obs 0 with
+      | Some (S a), Some b =>
+          existsb (fun w =>
+                     match nth_error prog w, nth_error obs a, nth_error obs b with
+                     | Some (SHold p _), Some oa, Some ob =>
+                         existsb (path_eqb p) removed
+                         && Nat.eqb (nth w (so_status oa) 0%nat) 1
+                         && Nat.eqb (nth w (so_status ob) 0%nat) 1
+                     | _, _, _ => false
+                     end) (seq 0 (List.length prog))
+      | _, _ => false
+      end
+  | _, _ => false
+  end.
+
 Definition sched_check (prog : list sop) (obs : list sobs) (results : list ares) (final : flat)
   : list (nat * N) :=
   (match accept prog [init_cfg prog] obs 0 with
@@ -512,18 +536,29 @@ Definition sched_check (prog : list sop) (obs : list sobs) (results : list ares)
          (filter (fun k => negb (get_coupling_ok prog obs k)) (seq 0 (List.length obs)))
   ++ map (fun w => (w, 7%N))
          (filter (fun w => negb (write_excl_ok prog obs results w)) (seq 0 (List.length prog)))
+  ++ map (fun d => (d, 11%N))
+         (filter (kf_handle_delete prog obs results) (seq 0 (List.length prog)))
   ++ window_check [] (sched_history prog obs results) final.
 
 (** ** cases *)
 Inductive c10case :=
 | CWin (s0 : flat) (ops : list hop) (final : flat)
 | CSched (prog : list sop) (obs : list sobs) (results : list ares) (final : flat)
+| CStress (allowed final : flat) (bad : N)
+    (* unsynchronised stress run: every stored (path, value) must have been
+       written by someone; bad: 0 fine, 1 a call panicked, 2 no progress (deadlock) *)
 | CEvent (kind : N).   (* 1 fatal error / crash, 2 hang, 3 race: Leaf.Update || Delete, 4 other race *)
 
 Definition check_case (c : c10case) : list (nat * N) :=
   match c with
   | CWin s0 ops final => window_check s0 ops final
   | CSched prog obs results final => sched_check prog obs results final
+  | CStress allowed final bad =>
+      match bad with
+      | 0%N => if forallb (fun x => mem_leaf x allowed) final && nodup_paths final
+               then [] else [(0%nat, 2%N)]
+      | _ => [(0%nat, 4%N)]
+      end
   | CEvent 3%N => [(0%nat, 11%N)]
   | CEvent 4%N => [(0%nat, 5%N)]
   | CEvent 0%N => []
